@@ -276,6 +276,16 @@ def run_conv(c, rec):
             require(close(np.asarray(Fr.samples[..., i]), want, 1e-12),
                     "funvals after assigning a new sample array are not the function values of the new samples", column=i)
         S.samples = P.copy()
+    # an integer-typed sample array (counts, integer draws): conversions act on its values, nothing is truncated
+    Pint = np.round(2 * P).astype(int)
+    Si = cuqi.samples.Samples(Pint.copy(), geometry=G)
+    refused_i, Fi = refuses(lambda: Si.funvals)
+    if not refused_i:
+        for i in range(N):
+            want = np.asarray(G.par2fun(Pint[:, i].astype(float)), dtype=float)
+            got = np.asarray(Fi.samples[..., i], dtype=float)
+            require(got.shape == want.shape and close(got, want, 1e-12),
+                    "funvals of an integer-typed sample array are not the function values of those numbers (truncated?)", i=i, got=got, want=want)
     if has_fun2par(spec):
         for src in ([Fs] if refused else [Fs, Vs]):
             Pb = must(lambda: src.parameters, "Samples.parameters")
